@@ -42,7 +42,7 @@ template<typename T> auto with_default(T defs)
     if constexpr (std::is_same_v<std::string, T>)
         return cxxopts::value<T>()->default_value(defs);
     else
-        return cxxopts::value<T>()->default_value(std::to_string(defs));
+        return cxxopts::value<T>()->default_value(fmt::format("{}", defs));
 }
 
 static const char* INPUT_FILE_KEYWORD_SHORT = "i";
